@@ -16,6 +16,11 @@ def groups(n, seed):
             # objective NaN at some (rejected) trial points: the displayed row really evaluates there
             ps = ("logdomain", int(rng.integers(0, 2 ** 31)), int(rng.integers(1, 4)), i % 8 == 1)
             pk["lamb_init"] = float(10.0 ** rng.uniform(-3, -1))
+        if i % 8 == 5:
+            # exp overflows (inf) at over-long trial points: an evaluation failure the solve survives -- whatever is displayed
+            ps = ("expgrowth", int(rng.integers(0, 2 ** 31)), int(rng.integers(1, 4)), i % 16 == 5)
+            pk["lamb_init"] = float(10.0 ** rng.uniform(-4, -2))
+            pk["iteration_limit"] = 30
         if i % 4 == 2:
             # iterative solver in single precision: the condition estimator's own solves may fail (must stay 'no estimate')
             from pygradflow.params import LinearSolverType, Precision, StepSolverType
